@@ -10,7 +10,7 @@ func init() {
 	Runners["C10"] = fileRunner(RunC10)
 	harness.Specs["C10"] = &harness.PropSpec{
 		ID: "C10", Test: "TestC10", Kind: "file", Level: "exploration", FuzzTargets: []string{"FuzzC10"}, FuzzSeconds: 180,
-		Quick: 4000, Thorough: 200000,
+		Quick: 4000, Thorough: 90000,
 		Rule: "twin execution of a generated program with and without its interposed close/reopen items (plus a determinism control); compared: " +
 			"success/failure and error kind of every step, every byte read, capacity probes (number of allocatable pages), user-visible allocator state; " +
 			"within one run the complete internal state before Close must equal the state after Open; shapes force free lists / overwrite mappings " +
